@@ -379,6 +379,26 @@ def split_none_elif(tree):
     return tree
 
 
+def early_returns_to_ifexp(tree, public):
+    """a private helper whose body is `if T1: return A1` … `return B` (each `if` without `else`, nothing else) is the
+    single `return A1 if T1 else (… else B)`"""
+    for n in tree.body:
+        if not (isinstance(n, ast.FunctionDef) and n.name.startswith("_") and n.name not in public and not n.decorator_list):
+            continue
+        doc = [s for s in n.body if isinstance(s, ast.Expr) and isinstance(s.value, ast.Constant) and isinstance(s.value.value, str)]
+        body = [s for s in n.body if s not in doc]
+        if len(body) < 2 or not isinstance(body[-1], ast.Return) or body[-1].value is None:
+            continue
+        if not all(isinstance(s, ast.If) and not s.orelse and len(s.body) == 1 and isinstance(s.body[0], ast.Return)
+                   and s.body[0].value is not None for s in body[:-1]):
+            continue
+        e = body[-1].value
+        for s in reversed(body[:-1]):
+            e = ast.IfExp(test=s.test, body=s.body[0].value, orelse=e)
+        n.body = doc + [ast.copy_location(ast.Return(value=e), body[-1])]
+    return ast.fix_missing_locations(tree)
+
+
 def inline_expression_helpers(tree, public):
     """a private helper whose body is a single `return <expr>`, called with names / constants only: the call is
     replaced by the expression wherever it stands"""
@@ -984,6 +1004,8 @@ def swap_is_not_none(tree):
 
 _PINNED_DIR = os.path.join(os.path.dirname(os.path.abspath(__file__)), "pinned_src")
 _TDES_TARGETS = ("cryptography.hazmat.primitives.ciphers.algorithms", "cryptography.hazmat.decrepit.ciphers.algorithms")
+# special methods that only serve printing / copying / pickling: nothing in the library invokes them implicitly
+HARMLESS_DUNDERS = {"__repr__", "__reduce__", "__reduce_ex__", "__copy__", "__deepcopy__", "__getnewargs__", "__getstate__"}
 HARMLESS_DECORATORS = {"staticmethod", "classmethod", "property", "_typing.final", "_t.final", "_typing.overload", "_t.overload"}
 _HARMLESS_CALLS = {"_logging.getLogger", "logging.getLogger", "_typing.TypeVar", "_t.TypeVar", "typing.TypeVar",
                    "_typing.NewType", "_t.NewType", "frozenset", "tuple"}
@@ -1086,6 +1108,14 @@ def _const_truth(e):
             if v is None:
                 return None
         return False
+    if isinstance(e, ast.Call) and isinstance(e.func, ast.Name) and e.func.id == "isinstance" and len(e.args) == 2 and not e.keywords \
+            and isinstance(e.args[0], ast.Constant) and e.args[0].value is not None:
+        names = [x.id for x in (e.args[1].elts if isinstance(e.args[1], ast.Tuple) else [e.args[1]]) if isinstance(x, ast.Name)]
+        known = {"bool": bool, "int": int, "float": float, "str": str, "bytes": bytes, "bytearray": bytearray, "memoryview": memoryview,
+                 "list": list, "tuple": tuple, "dict": dict, "set": set, "frozenset": frozenset, "complex": complex}
+        if names and len(names) == len(e.args[1].elts if isinstance(e.args[1], ast.Tuple) else [e.args[1]]) and all(n in known for n in names):
+            return isinstance(e.args[0].value, tuple(known[n] for n in names))
+        return None
     if isinstance(e, ast.Compare) and len(e.ops) == 1 and isinstance(e.left, ast.Constant) and isinstance(e.comparators[0], ast.Constant):
         a, b = e.left.value, e.comparators[0].value
         if isinstance(e.ops[0], ast.Is):
@@ -1098,7 +1128,26 @@ def _const_truth(e):
                 return a == b
             if isinstance(e.ops[0], ast.NotEq):
                 return a != b
+        if type(a) is int and type(b) is int:
+            import operator
+            op = {ast.Lt: operator.lt, ast.LtE: operator.le, ast.Gt: operator.gt, ast.GtE: operator.ge}.get(type(e.ops[0]))
+            if op:
+                return op(a, b)
     return None
+
+
+def _split_const_chains(fn):
+    class T(ast.NodeTransformer):
+        def visit_Compare(self, n):
+            self.generic_visit(n)
+            if len(n.ops) > 1 and isinstance(n.left, ast.Constant) and all(isinstance(c, ast.Constant) for c in n.comparators):
+                parts = []; left = n.left
+                for op, c in zip(n.ops, n.comparators):
+                    parts.append(ast.Compare(left=left, ops=[op], comparators=[c])); left = c
+                return ast.copy_location(ast.BoolOp(op=ast.And(), values=parts), n)
+            return n
+    fn.body = [T().visit(st) for st in fn.body]
+    return fn
 
 
 def fold_constant_ifs(fn):
@@ -1126,9 +1175,10 @@ def fold_constant_ifs(fn):
                     h.body = f(h.body)
             out.append(st)
         return out
+    _split_const_chains(fn)
     fn.body = [E().visit(st) for st in fn.body]
     fn.body = f(fn.body) or [ast.Pass()]
-    return fn
+    return ast.fix_missing_locations(fn)
 
 
 def specialise_new_parameters(tree, module):
@@ -1141,6 +1191,7 @@ def specialise_new_parameters(tree, module):
     if not os.path.exists(path):
         return tree
     pinned = _defs_by_qualname(ast.parse(open(path).read()))
+    removed = {}
     for q, fns in _defs_by_qualname(tree).items():
         olds = pinned.get(q)
         if not olds or len(olds) != len(fns):
@@ -1172,6 +1223,8 @@ def specialise_new_parameters(tree, module):
             inner_binds = {x.arg for st in fn.body for n in ast.walk(st) if isinstance(n, (ast.FunctionDef, ast.Lambda)) for x in n.args.args + n.args.kwonlyargs}
             if nested or (set(new) & (stores | inner_binds)):
                 continue
+            if "." not in q:                               # a module-level function: calls of it by name are rewritten below
+                removed.setdefault(q, {}).update(new)
             fn.body = [_Subst(new).visit(st) for st in fn.body]
             keep_defaults = a.defaults[:len(a.defaults) - len(extra_pos)] if extra_pos else a.defaults
             a.args = a.args[:len(opos)]
@@ -1179,6 +1232,17 @@ def specialise_new_parameters(tree, module):
             kk = [(p_, d) for p_, d in zip(a.kwonlyargs, a.kw_defaults) if p_.arg in okwo]
             a.kwonlyargs = [p_ for p_, _ in kk]; a.kw_defaults = [d for _, d in kk]
             fold_constant_ifs(fn)
+    if removed:
+        # a call inside the module that passes a removed parameter by keyword *with its default value* says nothing
+        class C(ast.NodeTransformer):
+            def visit_Call(self, c):
+                self.generic_visit(c)
+                if isinstance(c.func, ast.Name) and c.func.id in removed:
+                    c.keywords = [k for k in c.keywords if not (k.arg in removed[c.func.id] and isinstance(k.value, ast.Constant)
+                                                                and type(k.value.value) is type(removed[c.func.id][k.arg].value)
+                                                                and k.value.value == removed[c.func.id][k.arg].value)]
+                return c
+        tree = C().visit(tree)
     return tree
 
 
@@ -1201,7 +1265,7 @@ def drop_new_methods(tree, module):
         keep = []
         for m in c.body:
             if isinstance(m, ast.FunctionDef) and m.name not in pinned[c.name] and names.count(m.name) == 1 \
-                    and not (m.name.startswith("__") and m.name.endswith("__")) and m.name not in stored \
+                    and (not (m.name.startswith("__") and m.name.endswith("__")) or m.name in HARMLESS_DUNDERS) and m.name not in stored \
                     and all(ast.unparse(d) in HARMLESS_DECORATORS for d in m.decorator_list):
                 continue
             keep.append(m)
@@ -1477,6 +1541,15 @@ def drop_self_assignments(tree):
     return tree
 
 
+def fold_all_constant_ifs(tree):
+    """tests that became literal (a default substituted for a new parameter, then a helper inlined) are folded"""
+    for fn in [n for n in ast.walk(tree) if isinstance(n, ast.FunctionDef)]:
+        if any(isinstance(x, ast.If) and _const_truth(x.test) is not None for x in ast.walk(fn)) or \
+                any(isinstance(x, ast.IfExp) and _const_truth(x.test) is not None for x in ast.walk(fn)):
+            fold_constant_ifs(fn)
+    return tree
+
+
 def normalise_light(tree, signatures=None, aliases=None):
     """the rewrites that do not move code between functions (used for tlv.py and cvn.py)"""
     tree = inline_constants(tree)
@@ -1509,8 +1582,12 @@ def normalise(tree, public=(), signatures=None, aliases=None):
     tree = unchain_cipher_construction(tree)
     tree = push_call_into_branches(tree)
     tree = split_none_elif(tree)
+    tree = early_returns_to_ifexp(tree, set(public))
     tree = inline_expression_helpers(tree, set(public))
+    tree = ifexp_to_if(tree)
+    tree = drop_self_assignments(tree)
     tree = inline_helpers(tree, set(public))
+    tree = fold_all_constant_ifs(tree)
     if signatures:
         tree = keywords_to_positional(tree, signatures, aliases or {})
     return ast.fix_missing_locations(tree)
